@@ -58,7 +58,7 @@ def run(tier):
                 "masks; each with records that set every optional member; TLC checks on the real bytes: no member a cleared "
                 "bit excludes, every table entry reachable from a stored item, hints in the preamble = hints applied; the same "
                 "masks in force through an in-place edit of the active set, and on an application-kept block armed with set "
-                "#1, moved / copied to another object (also by a growing std::vector), written, cleared and re-used")
+                "#1, moved / copied to another object (also by a growing std::vector) or taken through a file and the reader, written, cleared and re-used")
     chk.assumptions = ["TLC + CommunityModules", "Records.tla hint table transcribed from RFC 8618 section 7.3.1.1.1",
                        "driver logging (harness/exp_driver.cpp)"]
     exporter_x_models(chk, tier)
@@ -84,7 +84,7 @@ def run(tier):
         recs = [dict(o, op="x" + o["op"]) for o in h["ops"] if o["op"] in ("qr", "aec", "mm")]
         # ... and changes its place in between (move / copy construction and assignment, a growing std::vector of blocks):
         # the block that takes over is filled under the same parameters
-        mv = {"op": "xmove", "how": ["mctor", "vector", "massign", "cctor", "cassign"][k % 5]}
+        mv = {"op": "xmove", "how": ["mctor", "vector", "massign", "cctor", "cassign"][k % 5]} if k % 6 not in (1, 3) else {"op": "xreload"}
         h["ops"] = ([{"op": "xnew" if k % 4 < 2 else "xset", "i": 1}] + ([mv] if k % 3 == 0 else []) + recs[:2] + [mv] + recs[2:3]
                     + [{"op": "xwb"}, {"op": "xclear"}] + ([mv] if k % 3 == 1 else []) + recs[3:]
                     + [{"op": "xwb"}, {"op": "xclear"}] + recs[:2] + [{"op": "xwb"}])
